@@ -378,9 +378,14 @@ def run(tier, seed, sessim_bin, env_names=()):
     # position sweep: every generated item alone, at many byte offsets in its file (a leading comment of
     # growing length): whatever reads span positions — and compares or formats them — meets the digit-count
     # boundaries (…99|100…, …999|1000…) here
-    # (the module header puts an item at offset ~100: pads up to 100 cross …99|100…, pads 800–1000 cross …999|1000…)
-    pads = (list(range(0, 100, 20)) + list(range(800, 1000, 8))) if tier == "quick" else (list(range(0, 1300, 4)) + list(range(9700, 10000, 12)))
+    # (pads are chosen from the offset at which a lone item's module starts — the first line holds the type-macro
+    # definitions — so that the module start runs from ~840 to ~1040 in quick, i.e. the item's tokens straddle 1000)
     sweep_items = [it for it in items if it["kind"].startswith("family:")]
+    base0 = crate_text(sweep_items[:1] or items[:1], {"file_pad": 0})[0].index("mod case_")
+    if tier == "quick":
+        pads = list(range(0, 100, 20)) + [p for p in range(840 - base0, 1040 - base0, 8) if p >= 0]
+    else:
+        pads = list(range(0, 1300, 4)) + [p for p in range(9700 - base0, 10040 - base0, 12) if p >= 0]
 
     def sweep_one(job):
         it, pad = job
